@@ -47,16 +47,7 @@ Section Scaling.
       nth_error (r_ingredients r') k = Some i' /\ ig_frame i' = si_frame i /\ ig_quantity i' = Some x /\
       r_data r' = Scaled f oi oc ot /\ nth_error oi k = Some OScaled /\
       times_amount c f {| q_value := v; q_unit := sq_unit q |} x.
-  Proof.
-    intros c f r r' k i q v Hp Hi H Hk Hq Hv Ht.
-    destruct (scale_spec approx approx_exact c f r r' Hp Hi H)
-      as (_ & _ & oi & oc & ot & Hd & _ & _ & _ & _ & _ & _ & Hing & _).
-    destruct (Hing k i Hk) as (i' & o & Hn & Ho & Hf & Hr).
-    unfold quantity_rel in Hr. rewrite Hq in Hr. destruct Hr as (x & Hx & Hr).
-    rewrite Hv, Ht in Hr. destruct Hr as [Hr ->].
-    exists i', x, oi, oc, ot. repeat split; try assumption.
-    unfold quantity_default in Hr. rewrite Hv in Hr. exact Hr.
-  Qed.
+  Proof. exact (scale_linear approx approx_exact). Qed.
 
   (* what must not be scaled is not: a Fixed (locked, text) ingredient quantity keeps its amount and
      reports Fixed; a Linear text value is kept verbatim and reports Error; no quantity reports
@@ -99,34 +90,7 @@ Section Scaling.
        | Some (SLinear v) => exists o, nth_error oc k = Some o /\
                                        cookware_rel f (Some (SLinear v)) (ck_quantity w') o
        end).
-  Proof.
-    intros c f r r' Hp Hi H.
-    destruct (scale_spec approx approx_exact c f r r' Hp Hi H)
-      as (_ & Hin & oi & oc & ot & Hd & _ & _ & _ & _ & _ & _ & Hing & Hcw & Htm).
-    exists oi, oc, ot. split; [exact Hd|]. split; [exact Hin|]. split; [|split].
-    - intros k i Hk. destruct (Hing k i Hk) as (i' & o & Hn & Ho & _ & Hr). exists i'.
-      split; [exact Hn|]. unfold quantity_rel in Hr. destruct (si_quantity i) as [q|].
-      + destruct Hr as (x & Hx & Hr). destruct (sq_value q) as [v|v] eqn:V.
-        * destruct Hr as [Hs ->]. exists x. split; [exact Hx|]. split; [exact Ho|].
-          unfold quantity_default in Hs. rewrite V in Hs. exact Hs.
-        * intro Ht. rewrite Ht in Hr. destruct Hr as [-> ->]. split; [|exact Ho].
-          rewrite Hx. unfold quantity_default. rewrite V. reflexivity.
-      + destruct Hr as [-> ->]. split; [reflexivity|exact Ho].
-    - intros k t Hk. destruct (Htm k t Hk) as (t' & o & Hn & Ho & Hname & Hr). exists t'.
-      split; [exact Hn|]. split; [exact Hname|]. destruct (st_quantity t) as [q|] eqn:Q.
-      + destruct (sq_value q) as [v|v] eqn:V.
-        * unfold quantity_rel in Hr. destruct Hr as (x & Hx & Hr). rewrite V in Hr.
-          destruct Hr as [Hs ->]. exists x. split; [exact Hx|]. split; [exact Ho|].
-          unfold quantity_default in Hs. rewrite V in Hs. exact Hs.
-        * exists o. split; [exact Ho|exact Hr].
-      + destruct Hr as [-> ->]. split; [reflexivity|exact Ho].
-    - intros k w Hk. destruct (Hcw k w Hk) as (w' & o & Hn & Ho & Hf & Hr). exists w'.
-      split; [exact Hn|]. split; [exact Hf|]. unfold cookware_rel in Hr.
-      destruct (sc_quantity w) as [[v|v]|].
-      + destruct Hr as [-> ->]. split; [reflexivity|exact Ho].
-      + exists o. split; [exact Ho|exact Hr].
-      + destruct Hr as [-> ->]. split; [reflexivity|exact Ho].
-  Qed.
+  Proof. exact (scale_fixed approx approx_exact). Qed.
 
   (* nothing else moves: metadata and sections (the recipe frame), the frame of every ingredient and
      cookware item (name, alias, note, reference, relation, modifiers) and the timer names are
